@@ -3,6 +3,7 @@ import FluentProofs.SpecLex
 import FluentProofs.SpecDedent
 import FluentProofs.SpecFuel
 import FluentProofs.SpecPatLoop
+import FluentProofs.SpecResource
 /-!
 # C02 — well-formed FTL parses to exactly the tree the Fluent grammar assigns
 
@@ -14,9 +15,11 @@ Two executable objects are related here:
   specification transcribed from the Fluent 1.0 EBNF (as a PEG) and the abstract-syntax rules, validated
   at every run against the repo's 68 reference trees.  `wellFormed src` = that tree has no Junk.
 
-The property is `parse_refines_grammar` below (a `def … : Prop`, the whole-resource statement).  It is
-NOT yet a theorem: what is proved (for ALL sources and positions, no bounds) is the layered plan of
-DESIGN §6/C02 up to
+The property is the THEOREM `parse_refines_grammar` at the end of this file (whole resource, every `String`):
+if the grammar calls the source well-formed and the source satisfies the side condition `Surv` (which excludes
+exactly the shape of the known, deliberate deviation F30 — `T3_side_condition`; it holds for every source
+without a lone carriage return, `parse_refines_grammar_noLoneCR`), the parser model returns no error and its tree,
+text-joined, IS the grammar's tree.  It is proved in layers, each a theorem below:
 
 * **T1, lexical layer** — every scanner of the parser model against the grammar's lexical rule:
   `blank_inline`, `line_end`, `blank`, `blank_block`, `Identifier`, `NumberLiteral`, `StringLiteral`
@@ -24,11 +27,17 @@ DESIGN §6/C02 up to
 * **spec totality** — `SpecGrammar.parse` never runs out of fuel (`spec_total`);
 * **T2, dedentation core** — `finishElements`' offset arithmetic `start + min indent common` is the
   grammar's `dedent`; `Slice::trim` is "the last element loses trailing white space"; `commonIndent` is
-  the attained minimum; the grammar's patterns are in `joinText`-normal form.
+  the attained minimum; the grammar's patterns are in `joinText`-normal form;
+* **T2 expression layer / T3 pattern layer** — inline expressions, call arguments, select/variants with their
+  validity rules; `get_pattern`'s loop and `finishElements` against `PatternElement+` and the abstract pass;
+* **T3 entries** — attributes, Message, Term, the comment-line loop, and the resource loop with comment
+  joining, comment attachment (blank-line count) and blank blocks;
+* **T4** — the whole resource, the statement without side condition refuted by F30's witness, and the
+  layout-independence corollary.
 
-Until the expression layer (inline expressions, call arguments, select/variants), whole patterns,
-entries and comment attachment are connected (T2 rest, T3), the whole-resource claim rests on the
-three-way differential test of `tools/fv/props/c02.py` (spec vs. parser vs. generator's tree).
+The direction is "the grammar accepts ⇒ the parser returns the grammar's tree" (what the property needs: on
+well-formed input no error branch of the parser is taken).  Spec-vs-parser differences on ill-formed input are
+outside the property; the differential test of `tools/fv/props/c02.py` counts them as leniencies.
 
 The source is the UTF-8 encoding of a `String` (`bytesOf str`), which is what a Rust `&str` is; the one
 UTF-8 fact used is `asciiThenBoundary_of_string`.  `rest s p` = the bytes of `s` from `p` on.
@@ -36,31 +45,19 @@ UTF-8 fact used is `asciiThenBoundary_of_string`.  `rest s p` = the bytes of `s`
 namespace FluentProofs.C02
 open FluentModel FluentModel.Syntax FluentModel.SpecGrammar
 open FluentProofs.Parser FluentProofs.SpecLex FluentProofs.SpecDedent
-open FluentProofs.SpecRefine FluentProofs.PatLoop
+open FluentProofs.SpecRefine FluentProofs.PatLoop FluentProofs.SpecEntries FluentProofs.SpecResource
 
 /-- the UTF-8 bytes of a string, as the parser model's source -/
 def bytesOf (str : String) : Src := str.toUTF8.data
 
-/-- **Full statement of C02 on the models** (kept visible; not yet proved).  For every source that the
-grammar calls well-formed, the parser returns without panic or fuel exhaustion, reports no error (hence
-no Junk), and its tree with adjacent text elements joined is the tree the grammar assigns.
-
-Missing for a proof: (1) expression layer — `getInline`/`getCallArguments`/`getCallArgsLoop`/
-`getExpression`/`getVariants` against `inlineExpression`/`callArguments`/`argumentList`/`inlinePlaceable`/
-`variantList` (mutual induction on fuel; the parser's optional comma between arguments and its
-`blank_inline`-only skip before `}` are leniencies that do not arise on well-formed input);
-(2) `getPatternLoop` against `patternElements` (line structure of the placeholders versus
-`block_text`/`block_placeable`), then `finishElements` against `finishPattern` using `dedent_offset` and
-`trimEnd_eq_dropTrailingWs`; (3) `getMessage`/`getTerm`/`getAttributes`/`getComment`
-against `messageP`/`termP`/`attributesP`/`commentLine`; (4) `parseLoop`'s `lastComment`/`lastBlankCount`
-against `joinComments`/`attachComments`.  (Fuel sufficiency of `SpecGrammar.fuelFor` is `spec_total`.)
-Layout independence (the property's second sentence) follows from this statement for every layout change
-under which `SpecGrammar.parse` is invariant; it is exercised by the ≥ 8 layouts per AST of the generator.
-
-Deviations of the parser from the grammar on well-formed input that the differential check found are
-recorded in `known_findings.json` (a whitespace-only last line without line break used to become Junk);
-the statement below is the property as it should hold. -/
-def parse_refines_grammar : Prop :=
+/-- **The statement of C02 WITHOUT a side condition** (kept visible): for every source that the grammar calls
+well-formed, the parser returns without panic or fuel exhaustion, reports no error (hence no Junk), and its tree
+with adjacent text elements joined is the tree the grammar assigns.  This is the property as it should hold; on
+the pinned tree it is FALSE — `parse_refines_grammar_unconditional_false` below refutes it with the witness of
+the known finding F30 (a deliberate deviation: a last pattern line that consists of spaces and a lone carriage
+return is kept by the reference and dropped by the parser).  What is proved is `parse_refines_grammar`: the same
+conclusion for every well-formed source satisfying `Surv`. -/
+def parse_refines_grammar_unconditional : Prop :=
   ∀ (str : String), wellFormed (bytesOf str).toList = true →
     ∃ t, parse (bytesOf str) = .done (t, []) ∧
       SpecGrammar.parse (bytesOf str).toList = some (Resource.joinText (resolve (bytesOf str) t))
@@ -244,11 +241,149 @@ theorem T3_side_condition :
     ¬ Surv (strBytes "a =\n  x\n \r").toArray :=
   ⟨fun str h => surv_of_noLoneCR (asciiThenBoundary_of_string str) h, f30_witness_not_surv⟩
 
+/-! ## T3 — entries and the resource loop -/
+
+/-- **Attributes.** `Attribute*` against `get_attributes` (line end, blank, `.`, identifier, `=`, pattern; the
+cursor goes back to the line start when the next line is not an attribute) -/
+theorem T3_attributes (str : String) (hSurv : Surv (bytesOf str)) (sf n : Nat) : AttrsRef (bytesOf str) sf n :=
+  attrsRef (asciiThenBoundary_of_string str) hSurv sf n
+
+/-- **Message.** Where the grammar's `Message` matches and is followed by what follows an entry of a junk-free
+source (`EntryFollow`: a line end, and the next non-blank byte is in column 0 and not `.`/`{`), `get_message`
+returns the same message (value or attributes-only, attributes in order, no comment yet) and stops at the start of
+the next non-blank line. -/
+theorem T3_message (str : String) (hSurv : Surv (bytesOf str)) {sf pf es p : Nat} {msg : Message Bytes}
+    {r4 : List UInt8} (h : messageP sf (rest (bytesOf str) p) = .ok msg r4) (hfol : EntryFollow r4)
+    (hp : p ≤ (bytesOf str).size) (hpf : 4 * ((bytesOf str).size - p) + 2 ≤ pf) :
+    ∃ m' q, getMessage (bytesOf str) pf es p = .ok m' q ∧ jMsg (bytesOf str) m' = msg ∧
+      rest (bytesOf str) q = afterBlank r4 ∧ q ≤ (bytesOf str).size ∧ Bnd (bytesOf str) q ∧ p < q :=
+  message_ref (asciiThenBoundary_of_string str) hSurv h hfol hp hpf
+
+/-- **Term.** The same for `Term` and `get_term`. -/
+theorem T3_term (str : String) (hSurv : Surv (bytesOf str)) {sf pf es p : Nat} {trm : Term Bytes}
+    {r4 : List UInt8} (h : termP sf (rest (bytesOf str) p) = .ok trm r4) (hfol : EntryFollow r4)
+    (hp : p ≤ (bytesOf str).size) (hpf : 4 * ((bytesOf str).size - p) + 2 ≤ pf) :
+    ∃ t' q, getTerm (bytesOf str) pf es p = .ok t' q ∧ jTerm (bytesOf str) t' = trm ∧
+      rest (bytesOf str) q = afterBlank r4 ∧ q ≤ (bytesOf str).size ∧ Bnd (bytesOf str) q ∧ p < q :=
+  term_ref (asciiThenBoundary_of_string str) hSurv h hfol hp hpf
+
+/-- what follows a Message or Term in a junk-free source satisfies `EntryFollow` (so `T3_message`/`T3_term` apply
+to every entry of a well-formed source) -/
+theorem T3_entry_follow {sf m : Nat} {r4 r5 : List UInt8} {raw : List (Option (Entry Bytes))}
+    (hl : lineEnd r4 = some r5) (h : resourceRaw sf m r5 = some raw) (hj : hasJunk raw = false) : EntryFollow r4 :=
+  follow_of_raw hl h hj
+
+/-- **Comments: levels and joining.**  From a line start `p` of a junk-free source (the grammar's raw item list from
+there is `raw`), `get_comment`'s loop (`lv = 0`: first round, the level is that of the first line; `lv = L`: later
+rounds) consumes exactly the maximal run of `CommentLine`s of level `L` — `raw` is that run followed by `raw1`, which
+does not begin with a comment of level `L` — and collects their contents in order.  The cursor it returns is either the
+start `p1` of the next line (end of input, or a `#` line of another level) or the line feed in front of `p1` (the next
+line does not begin with `#`), which `skip_blank_block` then counts as one blank line. -/
+theorem T3_comment_run (str : String) (sf : Nat) {L : Nat} (hL : L = 1 ∨ L = 2 ∨ L = 3)
+    (g m p lv : Nat) (content : List Span) (raw : List (Option (Entry Bytes))) (hp : p ≤ (bytesOf str).size)
+    (hg : (bytesOf str).size - p + 1 ≤ g) (hraw : resourceRaw sf m (rest (bytesOf str) p) = some raw)
+    (hj : hasJunk raw = false)
+    (hlv : (lv = L ∧ (p < (bytesOf str).size → 0 < p ∧ (bytesOf str)[p - 1]? = some 10)) ∨ (lv = 0 ∧ headLevel raw = L)) :
+    ∃ spans raw1 q p1 m1,
+      raw = runItems (bytesOf str) L spans ++ raw1 ∧
+      getCommentGo (bytesOf str) g lv content p = .ok (content ++ spans, L) q ∧
+      resourceRaw sf m1 (rest (bytesOf str) p1) = some raw1 ∧ m1 ≤ m ∧ hasJunk raw1 = false ∧ headLevel raw1 ≠ L ∧
+      p ≤ p1 ∧ p1 ≤ (bytesOf str).size ∧ (lv = 0 → p < p1) ∧
+      ((q = p1 ∧ ((bytesOf str).size ≤ p1 ∨ (bytesOf str)[p1]? = some 35)) ∨
+       (q + 1 = p1 ∧ (bytesOf str)[q]? = some 10 ∧ p1 < (bytesOf str).size ∧ (bytesOf str)[p1]? ≠ some 35)) :=
+  comment_run (asciiThenBoundary_of_string str) sf hL g m p lv content raw hp hg hraw hj hlv
+
+/-- **Comment attachment: the blank-line count.**  After `get_comment` returned at `q` (see `T3_comment_run`),
+`skip_blank_block` stops at the start of the next non-blank line, the grammar's items from `p1` on are the same
+less at most one `blank_block`, and the count `skip_blank_block` reports is `< 2` exactly when no `blank_block`
+stands between (or nothing follows at all) — the parser's test `last_blank_count < 2` for attaching the comment. -/
+theorem T3_blank_after_comment (str : String) {sf m1 q p1 : Nat} {raw1 : List (Option (Entry Bytes))}
+    (hraw : resourceRaw sf m1 (rest (bytesOf str) p1) = some raw1) (hj : hasJunk raw1 = false)
+    (hp1 : p1 ≤ (bytesOf str).size)
+    (hq : (q = p1 ∧ ((bytesOf str).size ≤ p1 ∨ (bytesOf str)[p1]? = some 35)) ∨
+          (q + 1 = p1 ∧ (bytesOf str)[q]? = some 10 ∧ p1 < (bytesOf str).size ∧ (bytesOf str)[p1]? ≠ some 35)) :
+    ∃ raw2 m2, resourceRaw sf m2 (rest (bytesOf str) (skipBlankBlock (bytesOf str) q).1) = some raw2 ∧
+      hasJunk raw2 = false ∧ Canon (rest (bytesOf str) (skipBlankBlock (bytesOf str) q).1) ∧
+      q ≤ (skipBlankBlock (bytesOf str) q).1 ∧ (skipBlankBlock (bytesOf str) q).1 ≤ (bytesOf str).size ∧
+      ((raw1 = raw2 ∧ (skipBlankBlock (bytesOf str) q).2 < 2) ∨
+       (raw1 = none :: raw2 ∧ (2 ≤ (skipBlankBlock (bytesOf str) q).2 ∨ raw2 = []))) :=
+  blank_after_comment hraw hj hp1 hq
+
+/-- **The resource loop.**  From the start `p` of a non-blank line of a junk-free source, `Parser::parse`'s loop
+(no pending comment; any blank count) finishes with NO error and appends exactly the entries the grammar's abstract
+pass assigns to the rest of the source (`assemble raw`: comment lines joined by level, a `#` comment attached to the
+Message/Term that follows it without a blank block, blank blocks dropped) — spans resolved, text joined. -/
+theorem T3_resource_loop (str : String) (hSurv : Surv (bytesOf str)) {sf pf : Nat} (hpf : 4 * (bytesOf str).size + 2 ≤ pf)
+    (N m p : Nat) (raw : List (Option (Entry Bytes))) (body : List (Entry Span)) (cnt : Nat)
+    (hraw : resourceRaw sf m (rest (bytesOf str) p) = some raw) (hj : hasJunk raw = false)
+    (hcan : Canon (rest (bytesOf str) p)) (hp : p ≤ (bytesOf str).size) (hN : (bytesOf str).size - p + 1 ≤ N) :
+    ∃ out, parseLoop (bytesOf str) pf N body [] none cnt p = .done (body ++ out, []) ∧
+      out.map (jEntry (bytesOf str)) = assemble raw :=
+  resource_loop (asciiThenBoundary_of_string str) hSurv hpf N m p raw body cnt hraw hj hcan hp hN
+
+/-! ## T4 — the whole resource -/
+
+/-- **C02.**  For every source (a `String`) that the grammar calls well-formed — `SpecGrammar.parse` assigns it a
+tree without Junk — and that satisfies the side condition `Surv` (`T3_side_condition`: it excludes exactly the shape
+of the known finding F30 and holds whenever every `\r` belongs to a `\r\n`), the parser model terminates without
+panic or fuel exhaustion, reports NO error, and its tree — spans resolved to bytes, adjacent text elements joined —
+is exactly the tree the grammar assigns. -/
+theorem parse_refines_grammar (str : String) (hwf : wellFormed (bytesOf str).toList = true)
+    (hSurv : Surv (bytesOf str)) :
+    ∃ t, parse (bytesOf str) = .done (t, []) ∧
+      SpecGrammar.parse (bytesOf str).toList = some (Resource.joinText (resolve (bytesOf str) t)) :=
+  parse_refines (asciiThenBoundary_of_string str) hSurv hwf
+
+/-- C02 for sources without a lone carriage return (a side condition that can be read off the source) -/
+theorem parse_refines_grammar_noLoneCR (str : String) (hwf : wellFormed (bytesOf str).toList = true)
+    (hcr : NoLoneCR (bytesOf str)) :
+    ∃ t, parse (bytesOf str) = .done (t, []) ∧
+      SpecGrammar.parse (bytesOf str).toList = some (Resource.joinText (resolve (bytesOf str) t)) :=
+  parse_refines_grammar str hwf (surv_of_noLoneCR (asciiThenBoundary_of_string str) hcr)
+
+/-- **Layout independence** (the property's second sentence).  Two well-formed sources to which the grammar assigns
+the same tree — any two layouts of one AST: spacing, blank lines, indentation depth, LF/CRLF, final newline, as far as
+`SpecGrammar.parse` does not see them — get the same tree from the parser (and no error). -/
+theorem layout_independence (a b : String)
+    (ha : wellFormed (bytesOf a).toList = true) (hb : wellFormed (bytesOf b).toList = true)
+    (sa : Surv (bytesOf a)) (sb : Surv (bytesOf b))
+    (hg : SpecGrammar.parse (bytesOf a).toList = SpecGrammar.parse (bytesOf b).toList) :
+    ∃ ta tb, parse (bytesOf a) = .done (ta, []) ∧ parse (bytesOf b) = .done (tb, []) ∧
+      Resource.joinText (resolve (bytesOf a) ta) = Resource.joinText (resolve (bytesOf b) tb) := by
+  obtain ⟨ta, a1, a2⟩ := parse_refines_grammar a ha sa
+  obtain ⟨tb, b1, b2⟩ := parse_refines_grammar b hb sb
+  refine ⟨ta, tb, a1, b1, ?_⟩
+  rw [a2, b2] at hg
+  exact Option.some.inj hg
+
+/-- the check "no error and the grammar's tree" as a Boolean -/
+def agrees (s : Src) : Bool :=
+  match parse s, SpecGrammar.parse s.toList with
+  | .done (t, errs), some g => errs.isEmpty && Resource.sexp (Resource.joinText (resolve s t)) == Resource.sexp g
+  | _, _ => false
+
+theorem agrees_of_refines {s : Src}
+    (h : ∃ t, parse s = .done (t, []) ∧ SpecGrammar.parse s.toList = some (Resource.joinText (resolve s t))) :
+    agrees s = true := by
+  obtain ⟨t, h1, h2⟩ := h
+  simp [agrees, h1, h2]
+
+/-- **The side condition cannot be dropped on the pinned tree**: the witness of the known finding F30 is well-formed,
+and the parser's tree for it is not the grammar's. -/
+theorem parse_refines_grammar_unconditional_false : ¬ parse_refines_grammar_unconditional := by
+  intro h
+  have e : bytesOf "a =\n  x\n \r" = (strBytes "a =\n  x\n \r").toArray := by simp [bytesOf, strBytes]
+  have hw : wellFormed (bytesOf "a =\n  x\n \r").toList = true := by rw [e]; decide +kernel
+  have := agrees_of_refines (h _ hw)
+  rw [e] at this
+  revert this
+  decide +kernel
+
 /-! ## non-vacuity / sanity (tests on literals) -/
 
 /-- test: a well-formed source with an attached comment, a multi-line value with a placeable-led line,
 a select expression and a term: the grammar calls it well-formed and `parse_refines_grammar`'s
-conclusion holds for it -/
+conclusion holds for it (`agrees`) -/
 example :
     let src := strBytes "# c\nkey =\n      two\n    { $n ->\n        [one] x\n       *[other] { FOO(1, k: \"v\") }\n    }\n-t = v\n    .a = w\n"
     (wellFormed src &&
